@@ -23,6 +23,7 @@ Ties (this file):
 """
 from __future__ import annotations
 
+import collections
 import contextlib
 import itertools
 import logging
@@ -50,8 +51,10 @@ TRUSTED = [
     "guard semantics of Model/Net.lean (a blocked waiter is enabled iff its predicate holds) rests on the mailbox-level "
     "theorems about Model/Mailbox.lean (no lost wake-up, kill_wakes_all, send_rechecks_after_wait) and on C05's tie of "
     "Model/Mailbox.lean to the real Mailbox; the refinement between the two models is argued, not machine-checked",
-    "stage programs of the net model are abstract (read / emit / fail); the net semantics is not run against the real "
-    "pipeline step by step: part (iii) checks the property's wording on the real code directly",
+    "stage programs of the net model are abstract (read / emit / fail).  `Net.step` and the thread compilers of `wire` are "
+    "tied to the real ThreadedMailboxProcessor at the END of fixed-priority runs (component net/dynamics: per mailbox closed / "
+    "killed / force_killed / n_sent / have_read, per thread its ending, the caller's outcome; the model replays the same "
+    "priority list in `c06.run`), not after every step; worker pools / futures are not in the Lean net",
 ]
 ASSUMPTIONS = [
     "one fault per run; plugins compute in bounded time; process pools and wall-clock timeouts are outside",
@@ -326,6 +329,10 @@ def _chunk(topic, k):
 def _exc_tok(e):
     if isinstance(e, Injected):
         return f"Injected[{e.ident}]"
+    if isinstance(e, RuntimeError) and "saver already closed" in str(e):
+        return "AlreadyClosed"          # Saver.close on a closed saver
+    if isinstance(e, RuntimeError) and "Attmpt to save to" in str(e):
+        return "SaveToClosed"           # Saver.save on a closed saver
     for k in (AssertionError, RuntimeError, KeyError, ValueError, TypeError):
         if isinstance(e, k):
             return k.__name__
@@ -518,9 +525,16 @@ def po_oracle(case, out):
     for op, tok in zip(case["ops"], toks):
         if not op.startswith("R:"):
             continue
-        if tok.startswith("raised(RuntimeError<Injected["):
-            return ("D7-shape: single-thread bus, the consumer gets RuntimeError (saver already closed) with the injected "
-                    "exception only as __context__: " + tok)
+        if tok.startswith("raised(AlreadyClosed<Injected["):
+            # the shape of D7 and nothing else: Saver.close raised "saver already closed" while an injected exception was
+            # being handled, i.e. kill_spies re-closed a saver that was closed before
+            return ("D7-shape: single_thread bus, kill_spies re-closed a saver that was already closed: the consumer gets "
+                    "RuntimeError('… saver already closed') with the injected exception only as __context__: " + tok)
+        if tok.startswith("raised(") and "<Injected[" in tok and not tok.startswith("raised(Injected["):
+            # (a second INJECTED failure raised while the first is handled — a saver whose close was told to fail, closed by
+            # kill_spies — is a two-fault script: the consumer still gets an injected exception)
+            return (f"an injected exception was replaced by a foreign one on its way to the consumer: {tok} "
+                    f"(ops {';'.join(case['ops'])})")
     return None
 
 
@@ -823,7 +837,27 @@ ADVERSARIAL = {
 }
 
 
+def prio_key(spec, name):
+    """fixed priority of a thread (smaller runs first), a pure function of (policy, thread name) so that the policy can be
+    handed to the Lean driver as a list of names"""
+    if spec.get("main") == "first" and name == "main":
+        return -1.0
+    if spec.get("main") == "last" and name == "main":
+        return 2.0
+    return random.Random(f"{spec['seed']}:{name}").random()
+
+
+class KeyPriority:
+    def __init__(self, spec):
+        self.spec = spec
+
+    def choose(self, sched, runnable):
+        return min(runnable, key=lambda t: (prio_key(self.spec, t.name), t.index))
+
+
 def make_strategy(spec):
+    if spec["kind"] == "prio":
+        return KeyPriority(spec)
     rng = random.Random(spec["seed"])
     k = spec["kind"]
     if k == "random":
@@ -851,8 +885,26 @@ def run_pipeline(case):
             FAULT.update(key=(fault[0], fault[1], fault[2]), ident=case["ident"], fired=0)
     st = strax.Context(storage=[MemFrontend(store)], register=classes, allow_lazy=bool(case["lazy"]),
                        max_messages=case["cap"], timeout=3600, allow_rechunk=False)
-    sc = S.Sched(make_strategy(case["strat"]), prime=True, max_steps=60000)
+    dyn = bool(case.get("dyn"))
+    sc = S.Sched(make_strategy(case["strat"]), prime=True, max_steps=60000, yield_on_start=not dyn)
     res = {}
+    captured = []
+
+    class Capture(strax.ThreadedMailboxProcessor):
+        def __init__(self, *a, **kw):
+            super().__init__(*a, **kw)
+            captured.append(self)
+
+    def dump_state():
+        pr = captured[0]
+        mbs = []
+        for k, m in pr.mailboxes.items():
+            flags = f"{int(m.closed)}{int(m.killed)}" + ("" if m.killed == m.force_killed else "!force")
+            mbs.append(f"{k}|{flags}|{m._n_sent}|{'.'.join(str(int(x)) for x in m._subscribers_have_read)}")
+        return ";".join(mbs)
+
+    if dyn:
+        sc.on_deadlock = lambda s_: res.setdefault("dl_state", dump_state() if captured else "?")
 
     class Fut:
         ThreadPoolExecutor = staticmethod(lambda max_workers=None: S.SchedExecutor(sc, max_workers or 2))
@@ -861,7 +913,8 @@ def run_pipeline(case):
     def consumer():
         ids, it = [], None
         try:
-            it = st.get_iter("0", g["target"], processor=case["proc"], max_workers=case["workers"], progress_bar=False)
+            it = st.get_iter("0", g["target"], processor=(Capture if dyn else case["proc"]), max_workers=case["workers"],
+                             progress_bar=False)
             n = 0
             for c in it:
                 ids += [int(x) for x in c.data["id"]]
@@ -906,11 +959,75 @@ def run_pipeline(case):
             out += f"<ctx:Injected[{ctx.ident}]"
     else:
         out = "none"
+    if dyn:
+        return dyn_line(case, sc, res, captured, dump_state, val if kind == "exc" else None, kind), sc
     live = [t.name for t in sc.tasks if t.state != "done"]
     died = sorted({f"{t.name.split(':')[0]}={_exc_name(t.exc)}" for t in sc.tasks if t.exc is not None})
     lags = ",".join(f"{k}:{v['lag']}" for k, v in sorted(LAGS.items())) or "-"
     return (f"ok out={out} close={res.get('close', '-')} live={'.'.join(live) or '-'} dl={int(bool(sc.deadlocks))} "
             f"fired={FAULT.get('fired', 0)} died={','.join(died) or '-'} steps={len(sc.trace)} lag={lags}"), sc
+
+
+def dyn_line(case, sc, res, captured, dump_state, exc, kind):
+    """end state of a fixed-priority run in the format of the driver's `c06.run` (+ the op line, stored in the case)"""
+    if not captured:
+        return "ok no-processor"
+    pr = captured[0]
+    state = res.get("dl_state") or dump_state()
+    by_name = {t.name: t for t in sc.tasks}
+    names = [t.name for m in pr.mailboxes.values() for t in m._threads] + ["main"]
+    ths = []
+    for n in names:
+        t = by_name.get(n)
+        if t is None or t.state != "done":
+            st = "run"
+        elif isinstance(t.exc, Injected):
+            st = f"own[Injected[{t.exc.ident}]]"
+        else:
+            st = "ok"
+        ths.append(f"{n}={st}")
+    if sc.deadlocks:
+        # the threads that were still alive when nothing could move (afterwards the harness delivers timeouts)
+        alive = {n for n, _ in sc.deadlocks[0]}
+        ths = [f"{x.split('=')[0]}=run" if x.split("=")[0] in alive else x for x in ths]
+        out = "none"
+    elif case.get("fault") and case["fault"][0].startswith("consumer") and res.get("close") == "OutsideException":
+        # the consumer gave up: `close()` made get_iter throw OutsideException into the processor, which re-raised it
+        # after its epilogue; modelled as the consumer's own exception 7
+        out = "raised[Injected[7]]"
+        ths[-1] = "main=own[Injected[7]]"
+    elif kind == "ret":
+        out = "returned"
+    elif isinstance(exc, Injected):
+        out = f"raised[Injected[{exc.ident}]]"
+    else:
+        out = f"raised[{_exc_name(exc)}]"
+    # the op for the Lean driver, from the REAL components of this run
+    comps = pr.components
+    insts = []
+    for p_ in comps.plugins.values():
+        if not any(p_ is q for q in insts):
+            insts.append(p_)
+    nch = get_graph(case)["nch"]
+    defs = ";".join(f"{type(p_).__name__}|{'.'.join(strax.to_str_tuple(p_.provides))}|{'.'.join(p_.depends_on)}|"
+                    f"{'-' if p_.max_messages is None else p_.max_messages}|{nch}" for p_ in insts)
+    keys = ",".join(f"{k}={next(i for i, q in enumerate(insts) if q is p_)}" for k, p_ in comps.plugins.items())
+    loaders = ",".join(f"{d}:{nch}" for d in comps.loaders) or "-"
+    savers = ",".join(f"{d}={len(v)}" for d, v in comps.savers.items()) or "-"
+    fault = case.get("fault")
+    ftok, ctok = "-", "d"
+    if fault:
+        if fault[0] == "plugin":
+            idx = next(i for i, q in enumerate(insts) if type(q).__name__ == "H_" + fault[1])
+            ftok = f"plugin:{idx}:{fault[2]}"
+        elif fault[0].startswith("consumer"):
+            ctok = f"f{fault[2]}"
+        else:
+            ftok = f"{fault[0]}:{fault[1]}:{fault[2]}"
+    prio = ",".join(sorted(names, key=lambda n: (prio_key(case["strat"], n), names.index(n))))
+    case["_op"] = (f"c06.run {case['lazy']} - {case['cap']} {','.join(comps.targets)} {loaders} {defs} {keys} {savers} "
+                   f"{ftok} {ctok} {prio}")
+    return f"ok {state} # {';'.join(ths)} # out={out} end={'deadlock' if sc.deadlocks else 'final'}"
 
 
 def _exc_name(e):
@@ -1027,16 +1144,17 @@ def pipe_oracle(case, out):
     fired = int(f["fired"])
     if f["dl"] != "0":
         if fired == 0 and not fault and g.get("reconvergent"):
-            lags = ref_lags(case["graph"])
-            single = max(lags.values() or [0])
-            cumul = cumulative_lag(g, lags)
-            if single >= case["cap"]:
-                return None      # outside the property's domain: capacity does not exceed the largest plugin lag
-            withheld = cumulative_lag(g, {k: max(v - 1, 0) for k, v in lags.items()})
+            # the property's capacity hypothesis, in chunks WITHHELD (a one-to-one plugin withholds 0; the Probe's `lag`
+            # counts the chunk being worked on as well, hence lag - 1): it matters for an actual deadlock only
+            held = {k: max(v - 1, 0) for k, v in ref_lags(case["graph"]).items()}
+            single = max(held.values() or [0])
+            withheld = cumulative_lag(g, held)
+            if case["cap"] <= single:
+                return None      # a deadlock outside the property's domain: capacity does not exceed the largest plugin lag
             if case["cap"] < withheld:
                 return (f"D10-shape: no failure, reconvergent graph, deadlock (MailboxFullTimeout / MailboxReadTimeout after the "
-                        f"mailbox timeout) although max_messages = {case['cap']} exceeds the largest single-plugin lag "
-                        f"{single}; cumulative lag along the longer branch = {cumul} ({withheld} chunks withheld) {tag}")
+                        f"mailbox timeout) although max_messages = {case['cap']} exceeds the largest number of chunks a single "
+                        f"plugin withholds ({single}); withheld along the longer branch = {withheld} {tag}")
         multi = [nd for nd in g["nodes"] if nd["kind"] == "multi"]
         if fault and fault[0] == "save" and fired and multi and fault[1] in multi[0]["provides"][:-1] \
                 and "read_0=MailboxKilled" in f["died"]:
@@ -1047,17 +1165,27 @@ def pipe_oracle(case, out):
     if f["live"] != "-":
         return f"pipeline threads still alive after the caller got {f['out']}: {f['live']} {tag}"
     if fault and fault[0].startswith("consumer"):
-        if fault[0] == "consumer-raise" and f["out"] != f"exc:Injected[{case['ident']}]" and int(fault[2]) <= g["nch"]:
-            return f"the consumer's own exception was replaced: {f['out']} {tag}"
+        # the consumer gave up after `k` chunks (broke out of / raised in its own loop body — strax sees neither) and the
+        # abandoned generator was closed: get_iter throws OutsideException into the processor.  Beyond "no thread left, no
+        # deadlock" (above): what was delivered until then is the first k chunks, and close() ends with that
+        # OutsideException — not with a different exception raised while shutting down.
+        k = min(int(fault[2]), g["nch"])
+        if fault[0] == "consumer-close" and f["out"] != "ret:" + ".".join(map(str, range(k))):
+            return f"the consumer stopped after {k} chunks but had received {f['out']} {tag}"
+        if f["close"] not in ("OutsideException", "ok"):
+            return f"closing the abandoned iterator raised {f['close']} instead of OutsideException {tag}"
         return None
     if fault and fired > 0:
         want = f"exc:Injected[{case['ident']}]"
         if f["out"] == want:
             return None
-        if proc == "single_thread" and f["out"].startswith("exc:RuntimeError(") and "saver_already_closed" in f["out"] \
-                and f["out"].endswith(f"<ctx:Injected[{case['ident']}]"):
-            return (f"D7-shape: single_thread processor, caller got RuntimeError('... saver already closed') with the injected "
-                    f"exception only as __context__ (kill_spies re-closes a closed saver) {tag}")
+        if proc == "single_thread" and fault[0] == "close" and f["out"].startswith("exc:RuntimeError(") \
+                and "saver_already_closed" in f["out"] and f["out"].endswith(f"<ctx:Injected[{case['ident']}]"):
+            # exactly D7's shape: the failing call is a saver's close() (which sets closed = True before it fails),
+            # kill_spies closes that saver again, Saver.close raises "already closed" over the injected exception
+            return (f"D7-shape: single_thread processor, saver.close() of {fault[1]} raised the injected exception; the caller "
+                    f"got RuntimeError('... saver already closed') with it only as __context__ (kill_spies re-closes the "
+                    f"closed saver) {tag}")
         multi = [nd for nd in g["nodes"] if nd["kind"] == "multi"]
         if proc == "threaded_mailbox" and fault[0] == "save" and multi and fault[1] in multi[0]["provides"] \
                 and f["out"] == "exc:RuntimeError(generator_raised_StopIteration)":
@@ -1068,10 +1196,8 @@ def pipe_oracle(case, out):
             return (f"D26-shape: threaded_mailbox, saver.close() raised in the `finally` of save_from: the saver thread died, "
                     f"got_exception was never set and the caller returned normally with {f['out']} {tag}")
         return f"fault injected and fired, but the caller got {f['out']} instead of {want} {tag}"
-    # no fault (or the fault position was never reached): must terminate with the complete result
-    lags = {k: int(v) for k, v in (x.split(":") for x in f["lag"].split(",") if x != "-")} if f["lag"] != "-" else {}
-    if lags and max(lags.values()) >= case["cap"] and f["out"] != "ret:" + expected:
-        return None          # outside the domain (capacity <= largest lag) — reported in the branch counts only
+    # no fault (or the fault position was never reached): must terminate with the complete result — whatever the
+    # capacity and the lags are: a short result without an exception is silently truncated data, never excused
     if f["out"] != "ret:" + expected:
         return f"no fault fired, but the caller got {f['out']} instead of the full result {expected} {tag}"
     return None
@@ -1207,17 +1333,46 @@ def _run_line(case):
     return line
 
 
-def run_many(cases, jobs):
+def _run_dyn(case):
+    """fixed-priority run for the dynamics tie -> (end-state line, op line for `c06.run` built from the REAL components)"""
+    c = dict(case)
+    line, _ = run_pipeline(c)
+    return line, c.get("_op")
+
+
+def run_many(cases, jobs, fn=None):
+    fn = fn or _run_line
     if jobs <= 1 or len(cases) < 8:
         _pin()
         try:
-            return [_run_line(c) for c in cases]
+            return [fn(c) for c in cases]
         finally:
             _unpin()
     import multiprocessing as mp
     ctx = mp.get_context("fork")
     with ctx.Pool(jobs, initializer=_worker_init) as pool:
-        return pool.map(_run_line, cases, chunksize=4)
+        return pool.map(fn, cases, chunksize=4)
+
+
+DYN_SHAPES = ("chain", "tree", "multi", "diamond", "loader")
+
+
+def dyn_cases(rng, n_prio, caps):
+    """dynamics tie: every shape x eager/lazy x capacity x every fault position (plugin / loader / save / close at every
+    chunk, consumer stopping after k chunks) x `n_prio` fixed-priority schedules (the consumer first / anywhere / last,
+    the other threads in a random order)"""
+    cases = []
+    for g in DYN_SHAPES:
+        for lazy in (0, 1):
+            for fault in [None] + fault_positions(g):
+                if fault and fault[0] == "consumer-raise":
+                    continue        # strax cannot tell it from consumer-close (the body of the caller's loop is not its code)
+                for cap in caps:
+                    for i in range(n_prio):
+                        cases.append(dict(graph=g, proc="threaded_mailbox", lazy=lazy, workers=None, cap=cap,
+                                          fault=list(fault) if fault else None, ident=7, dyn=1,
+                                          strat=dict(kind="prio", seed=rng.getrandbits(30), main=("first", None, "last")[i % 3])))
+    return cases
 
 
 def jobs_default():
@@ -1227,6 +1382,11 @@ def jobs_default():
 
 RULE_WIRE = "non-trivial = at least two mailboxes; distinct = distinct components description"
 RULE_PO = "non-trivial = at least one message pulled or one processor run; distinct = distinct op script"
+RULE_DYN = ("one real ThreadedMailboxProcessor run through Context.get_iter under the cooperative scheduler with a fixed thread "
+            "priority (no yield at thread start) vs `Net.step` of `wire` applied to the run's own components under the same "
+            "priorities, compared at the end (or at the deadlock): every mailbox's closed / killed / force_killed / n_sent / "
+            "have_read, every thread's ending (ok / own injected exception / still blocked), the caller's outcome; "
+            "non-trivial = at least four mailboxes; distinct = distinct (shape, lazy, capacity, fault position, priorities)")
 RULE_PIPE = ("one real Context.get_iter run under the cooperative scheduler per case; non-trivial = at least 10 scheduling "
              "decisions (threaded) or a fault that fired; distinct = distinct (graph, configuration, fault position, schedule seed)")
 
@@ -1268,7 +1428,28 @@ def run(ctx):
     warm_up()
     ctx.note(f"numba warm-up of the pipeline flavours took {time.time() - t1:.0f}s")
     jobs = jobs_default()
-    cases = pipeline_cases(rng, ctx.pick(1, 30)) + lag_cases(rng, ctx.pick(1, 8))
+    # (iii-a) dynamics of the net model: real fixed-priority runs vs `Net.step` under the same priorities
+    t2 = time.time()
+    dcases = dyn_cases(rng, ctx.pick(3, 9), ctx.pick([1, 2], [1, 2, 4]))
+    douts = run_many(dcases, jobs, _run_dyn)
+    dtab = {id(c): o for c, o in zip(dcases, douts)}
+    flags = []
+
+    def strip_tree(r):
+        flags.append(" tree=1 " in r)
+        return r.split(" tree=")[0]
+    ctx.correspond("net/dynamics", dcases, lambda c: dtab[id(c)][0], lambda c: dtab[id(c)][1], None, model_post=strip_tree,
+                   nontrivial=lambda c, o: o.count(";") >= 3, rule=RULE_DYN,
+                   branch=lambda c, o: f"{c['graph']}/{'lazy' if c['lazy'] else 'eager'}/{c['fault'][0] if c['fault'] else 'none'}/"
+                                       f"{o.split(' out=')[1].split('[')[0] if ' out=' in o else '?'}",
+                   in_hyp=(lambda c, o, pos={id(c): i for i, c in enumerate(dcases)}: pos[id(c)] < len(flags) and flags[pos[id(c)]]))
+    per = collections.Counter((c["graph"], f) for c, f in zip(dcases, flags))
+    ctx.note("net/dynamics: " + str(len(dcases)) + f" fixed-priority runs in {time.time() - t2:.0f}s; `TreeNet (certOf (wire …))` evaluated "
+             "by the driver on the wiring of every run — inside the hypothesis of the `_partial` net theorems: "
+             + ", ".join(f"{g} {per[(g, True)]}/{per[(g, True)] + per[(g, False)]}" for g in DYN_SHAPES)
+             + " (multi-output plugins and diamonds are OUTSIDE: for them only the oracle and this tie speak)")
+    # (iii-b) the property's wording on the real processors
+    cases = pipeline_cases(rng, ctx.pick(5, 30)) + lag_cases(rng, ctx.pick(2, 8))
     outs = run_many(cases, jobs)
     table = {id(c): o for c, o in zip(cases, outs)}
     _by_shape(ctx, "pipeline/fault-injection", cases, lambda c: table[id(c)], pipe_oracle, rule=RULE_PIPE,
@@ -1304,7 +1485,8 @@ def search(ctx):
     cases = pipeline_cases(rng, 6)
     outs = run_many(cases, jobs_default())
     table = {id(c): o for c, o in zip(cases, outs)}
-    _by_shape(ctx, "search/pipeline", cases, lambda c: table[id(c)], pipe_oracle, rule=RULE_PIPE, branch=pipe_branch)
+    # same component names as in `run`: the listed findings pin the component
+    _by_shape(ctx, "pipeline/fault-injection", cases, lambda c: table[id(c)], pipe_oracle, rule=RULE_PIPE, branch=pipe_branch)
 
 
 def replay(ctx, body):
@@ -1327,4 +1509,9 @@ def replay(ctx, body):
     finally:
         _unpin()
     print("implementation output:", out)
+    if comp.startswith("net/"):
+        from lib import engine
+        mo = engine.Driver().run([case["_op"]])[0]
+        print("model output:         ", mo)
+        return None if mo.split(" tree=")[0] == out else "the real run and the net model end in different states"
     return pipe_oracle(case, out)
